@@ -20,6 +20,7 @@ import (
 
 type execResult struct {
 	reply string
+	rf    string
 	t0    int64
 	t1    int64
 	ev    string
@@ -103,6 +104,7 @@ func execOne(mgr *server.Manager, argv [][]byte) (res execResult) {
 			r.reply = "NIL"
 		} else {
 			r.reply = hx(out.ToBytes())
+			r.rf = replyFloatAnn(out)
 		}
 	}()
 	select {
@@ -137,9 +139,15 @@ func isNilData(d resp.RedisData) (isnil bool) {
 	return false
 }
 
-// dumpKeys: a full dump is repeated until two consecutive renderings agree (an expiry timer may fire in between)
+// dumpKeys: a full dump is repeated until two consecutive renderings agree (an expiry timer may fire in between); a rendering that
+// shows a deadline without a value ("~@<deadline>") may be the middle of the timer goroutine's CheckTTL (value deleted, deadline not
+// yet): it is retried for up to ~40 ms, so only a deadline that really stays behind is reported.
 func dumpKeys(mgr *server.Manager, spec string) string {
 	d := dumpKeysOnce(mgr, spec)
+	for i := 0; i < 20 && strings.Contains(d, "#~@"); i++ {
+		time.Sleep(2 * time.Millisecond)
+		d = dumpKeysOnce(mgr, spec)
+	}
 	if spec != "*" {
 		return d
 	}
@@ -202,8 +210,43 @@ func floatAnn(argv [][]byte) string {
 	return "fl=" + strings.Join(parts, ",")
 }
 
+// replyFloatAnn: strconv.ParseFloat of every bulk string of the reply, "rf=<leaf index>:<bits>,..." (leaves numbered in flattened
+// order; only bulk strings that parse are listed).  Lets the driver compare score-carrying reply positions by value.
+func replyFloatAnn(d resp.RedisData) string {
+	var parts []string
+	idx := 0
+	var walk func(d resp.RedisData, depth int)
+	walk = func(d resp.RedisData, depth int) {
+		if d == nil || isNilData(d) || depth > 8 {
+			idx++
+			return
+		}
+		switch v := d.(type) {
+		case *resp.ArrayData:
+			for _, e := range v.Data() {
+				walk(e, depth+1)
+			}
+		case *resp.BulkData:
+			b := v.Data()
+			if len(b) > 0 && len(b) <= 400 {
+				if f, err := strconv.ParseFloat(string(b), 64); err == nil {
+					parts = append(parts, fmt.Sprintf("%d:%016x", idx, math.Float64bits(f)))
+				}
+			}
+			idx++
+		default:
+			idx++
+		}
+	}
+	walk(d, 0)
+	if len(parts) == 0 {
+		return "rf=-"
+	}
+	return "rf=" + strings.Join(parts, ",")
+}
+
 // runExec: "R [dbs]" starts a fresh server.Manager; "X <keys|*|-> <argv hex...>" executes one command on it and appends
-//   => <t0> <t1> <reply-hex|NIL|PANIC|HANG> <dump> fl=<float annotations>
+//   => <t0> <t1> <reply-hex|NIL|PANIC|HANG> <dump> fl=<float annotations of argv> rf=<float annotations of the reply>
 // After a PANIC/HANG the rest of the program (until the next R) is answered with SKIP.
 func runExec(args []string) {
 	in := bufio.NewScanner(os.Stdin)
@@ -273,13 +316,16 @@ func runExec(args []string) {
 				argv = append(argv, unhex(a))
 			}
 			r := execOne(mgr, argv)
+			if r.rf == "" {
+				r.rf = "rf=-"
+			}
 			if r.reply == "PANIC" || r.reply == "HANG" {
 				dead = true
-				fmt.Fprintf(out, "%s => %d %d %s - fl=-%s\n", line, r.t0, r.t1, r.reply, evField(r))
+				fmt.Fprintf(out, "%s => %d %d %s - fl=- rf=-%s\n", line, r.t0, r.t1, r.reply, evField(r))
 				out.Flush()
 				continue
 			}
-			fmt.Fprintf(out, "%s => %d %d %s %s %s%s\n", line, r.t0, r.t1, r.reply, dumpKeys(mgr, f[1]), floatAnn(argv), evField(r))
+			fmt.Fprintf(out, "%s => %d %d %s %s %s %s%s\n", line, r.t0, r.t1, r.reply, dumpKeys(mgr, f[1]), floatAnn(argv), r.rf, evField(r))
 		}
 	}
 }
